@@ -377,6 +377,21 @@ class Model:
             raise Reject("self bond")
         self.bonds[frozenset((a, b))] = {"reaction": "Change." + CHANGES[role].name}
 
+    def bonds_from_matrix(self, mat, include_bond_order):
+        """bonds_from_bond_order_matrix: entries above 0.5 name bonds between the identifiers i, j; the request is ill-formed when the matrix does
+        not have the shape of the graph, names an identifier that is not an atom or bonds an atom to itself (diagonal)"""
+        n = len(self.atoms)
+        if mat.shape != (n, n):
+            raise Reject("matrix has the wrong shape")
+        pairs = [(int(i), int(j)) for i, j in zip(*(mat > 0.5).nonzero())]
+        for i, j in pairs:
+            if i not in self.atoms or j not in self.atoms:
+                raise Reject("unknown atom")
+            if i == j:
+                raise Reject("self bond")
+        for i, j in pairs:
+            self.bonds[frozenset((i, j))] = {"bond_order": mat[i, j]} if include_bond_order else {}
+
     def remove_bond(self, a, b):
         k = frozenset((a, b))
         if k not in self.bonds or a == b:
